@@ -6,6 +6,7 @@
  *                       -c or -o is logged, creates the -o output and writes
  *                       the -MF depfile (gcc escaping) listing the inputs.
  *   ar                : archiver stub: "ar <flags> out in..." creates out.
+ *   cp, ln            : log, then exec the real tool.
  *   anything else     : pure recorder; creates the files named by
  *                       --vf-out=PATH arguments, exits with $VF_REC_EXIT.
  * Every logged invocation appends ONE line of JSON to $VF_LOG:
@@ -135,6 +136,15 @@ int main(int argc, char **argv) {
     if (!strcmp(tool, "cc") || !strcmp(tool, "c++") || !strcmp(tool, "gcc") || !strcmp(tool, "g++"))
         return compiler(tool, argc, argv);
     if (!strcmp(tool, "ar")) return archiver(argc, argv);
+    if (!strcmp(tool, "cp") || !strcmp(tool, "ln")) {
+        /* logging wrappers around the real tools */
+        log_invocation(tool, argc, argv);
+        char real[64]; snprintf(real, sizeof real, "/bin/%s", tool);
+        execv(real, argv);
+        snprintf(real, sizeof real, "/usr/bin/%s", tool);
+        execv(real, argv);
+        perror("stub: exec"); return 127;
+    }
     log_invocation(tool, argc, argv);
     for (int i = 1; i < argc; i++)
         if (!strncmp(argv[i], "--vf-out=", 9) && create_file(argv[i] + 9, argc, argv)) return 1;
